@@ -91,6 +91,7 @@ type Obs struct {
 	Order      []int      `json:"order"`   // replicas that received the read, in order
 	Served     int        `json:"served"`  // replica whose data was returned, -1
 	Mutated    []int      `json:"mutated"` // replicas that received a mutating call during the event
+	Pending    int        `json:"pending"` // monitor notifications queued but not yet delivered
 	Note       string     `json:"note,omitempty"`
 }
 
@@ -725,6 +726,11 @@ func (h *harness) observe(res, note string, e Event) Obs {
 			ro.Cp = h.snapID(r.cp)
 		}
 		o.Reps = append(o.Reps, ro)
+	}
+	for _, in := range h.insts {
+		if in.notified && !in.delivered && atomic.LoadInt32(&in.monitored) == 1 {
+			o.Pending++
+		}
 	}
 	o.Signals = append([][2]int{}, h.signals...)
 	o.Order = append([]int{}, h.order...)
